@@ -48,27 +48,26 @@ pub fn make_module() -> KMap {
                 let iterable = iterable.clone();
                 let iterator = ctx.vm.make_iterator(iterable)?;
 
-                {
-                    let mut map_data = m.data_mut();
-                    let (size_hint, _) = iterator.size_hint();
-                    map_data.reserve(size_hint);
+                // Collect the entries before borrowing the map,
+                // the iterator might be reading from the map that's being extended.
+                let (size_hint, _) = iterator.size_hint();
+                let mut entries = Vec::with_capacity(size_hint);
+                for output in iterator {
+                    use KIteratorOutput as Output;
+                    let (key, value) = match output {
+                        Output::ValuePair(key, value) => (key, value),
+                        Output::Value(KValue::Tuple(t)) if t.len() == 2 => {
+                            let key = t[0].clone();
+                            let value = t[1].clone();
+                            (key, value)
+                        }
+                        Output::Value(value) => (value, KValue::Null),
+                        Output::Error(error) => return Err(error),
+                    };
 
-                    for output in iterator {
-                        use KIteratorOutput as Output;
-                        let (key, value) = match output {
-                            Output::ValuePair(key, value) => (key, value),
-                            Output::Value(KValue::Tuple(t)) if t.len() == 2 => {
-                                let key = t[0].clone();
-                                let value = t[1].clone();
-                                (key, value)
-                            }
-                            Output::Value(value) => (value, KValue::Null),
-                            Output::Error(error) => return Err(error),
-                        };
-
-                        map_data.insert(ValueKey::try_from(key.clone())?, value);
-                    }
+                    entries.push((ValueKey::try_from(key.clone())?, value));
                 }
+                m.data_mut().extend(entries);
 
                 Ok(KValue::Map(m))
             }
